@@ -525,6 +525,18 @@ where
     out.kv(pfx, &format!("convo_same.{k}"), &same_as_typed(&convo));
 }
 
+/// `P.typed.<k>` for the seven typed parsers, without a `Packet` to convert (the `packet` view
+/// when `Packet::parse` returned an error).
+fn typed_only_keys(out: &mut Out, pfx: &str, bytes: &[u8]) {
+    out.kv(pfx, "typed.app", &pres(&guard(|| App::parse(bytes))));
+    out.kv(pfx, "typed.bye", &pres(&guard(|| Bye::parse(bytes))));
+    out.kv(pfx, "typed.rr", &pres(&guard(|| ReceiverReport::parse(bytes))));
+    out.kv(pfx, "typed.sdes", &pres(&guard(|| Sdes::parse(bytes))));
+    out.kv(pfx, "typed.sr", &pres(&guard(|| SenderReport::parse(bytes))));
+    out.kv(pfx, "typed.tfb", &pres(&guard(|| TransportFeedback::parse(bytes))));
+    out.kv(pfx, "typed.pfb", &pres(&guard(|| PayloadFeedback::parse(bytes))));
+}
+
 /// The `packet` view after its `res` key. `bytes` are the bytes `pkt` was parsed from.
 fn packet_body(out: &mut Out, pfx: &str, pkt: &Packet, bytes: &[u8], base: Base, conv: bool) {
     let variant = match pkt {
@@ -751,8 +763,17 @@ pub fn dump_kind(out: &mut Out, pfx: &str, kind: Kind, bytes: &[u8]) {
             }
         }
         Kind::Packet => {
-            if let Some(p) = res_of(out, pfx, guard(|| Packet::parse(bytes))) {
-                packet_body(out, pfx, &p, bytes, base, true);
+            let r = guard(|| Packet::parse(bytes));
+            out.kv(pfx, "res", &pres(&r));
+            match &r {
+                // `typed.<k>` for the seven kinds come with the `conv*` keys
+                Some(Ok(p)) => packet_body(out, pfx, p, bytes, base, true),
+                // the typed parsers are asked also when the generic one refused the bytes
+                Some(Err(_)) => typed_only_keys(out, pfx, bytes),
+                None => {}
+            }
+            if r.is_some() {
+                out.kv(pfx, "typed.unknown", &pres(&guard(|| Unknown::parse(bytes))));
             }
         }
         Kind::Compound => dump_compound(out, pfx, bytes, base),
